@@ -44,8 +44,9 @@ func isDigit(ch int) bool {
 }
 
 type Scanner struct {
-	Pos    ast.Position
-	reader *bufio.Reader
+	Pos     ast.Position
+	reader  *bufio.Reader
+	readErr error // the first error other than io.EOF that the reader reported
 }
 
 func NewScanner(reader io.Reader, source string) *Scanner {
@@ -64,8 +65,16 @@ func (sc *Scanner) Error(tok string, msg string) *Error { return &Error{sc.Pos, 
 func (sc *Scanner) TokenError(tok ast.Token, msg string) *Error { return &Error{tok.Pos, msg, tok.Str} }
 
 func (sc *Scanner) readNext() int {
+	if sc.readErr != nil {
+		return EOF
+	}
 	ch, err := sc.reader.ReadByte()
 	if err == io.EOF {
+		return EOF
+	}
+	if err != nil {
+		// the input ends here; Parse reports the error
+		sc.readErr = err
 		return EOF
 	}
 	return int(ch)
@@ -481,6 +490,11 @@ func Parse(reader io.Reader, name string) (chunk []ast.Stmt, err error) {
 	defer func() {
 		if e := recover(); e != nil {
 			err, _ = e.(error)
+		}
+		if lexer.scanner.readErr != nil {
+			// the text was cut short by a read error: report that error, not
+			// whatever the parser made of the part it saw
+			chunk, err = nil, lexer.scanner.readErr
 		}
 	}()
 	yyParse(lexer)
